@@ -27,7 +27,9 @@ FUNCTIONS = [
 BOUNDS = {
     "quick": "things<=4 x containers<=3 (containment, split), things<=3 x containers<=2 (windows), "
              "rows<=4 (diff/break/sort), window symbolic in [-2,3] and unconstrained; all times in [0,2^62); "
-             "encodings endtime-field and time+length*dt with dt in {2}",
+             "encodings endtime-field and time+length*dt with dt in {2}; sort_key: 3 rows, time range symbolic up to "
+             "2^63 - 2, channel count symbolic up to 32768; sort_edge: 7 pinned channel / tie configurations with a "
+             "symbolic common time offset",
     "thorough": "things<=5 x containers<=4 (containment), things<=4 x containers<=3 (windows), rows<=5, "
                 "dt in {1,2,10}",
 }
@@ -44,7 +46,7 @@ ASSUMPTIONS = [
 ]
 OUTSIDE = [
     "arrays larger than the stated size bound",
-    "the 'time range too large' fallback branch of sort_by_time (needs spans > 2^62/channels)",
+    "python -O for functions other than fully_contained_in (same three check helpers)",
     "int64 overflow",
 ]
 STUBS = ["np (array constructors -> object arrays)", "min/max (ite-merging)", "int (keeps proxies)",
